@@ -205,7 +205,10 @@ SpecialCases ==
      Special("(function(){var s=[1];return {p:s,q:{r:s}}})()", O2(<<112>>, A1(IntV(1)), <<113>>, O1(<<114>>, A1(IntV(1)))), IntV(1)),
      Special("Object.keys({b:1,a:2})", A2(StrV(Kb), StrV(Ka)), NoSp)}
 
+(* TLC evaluates constant definitions once per worker at start-up: the      *)
+(* explicit families are built only for the run that uses them               *)
 ListCases ==
+    IF Fam # "list" THEN {} ELSE
     {ParseCase(t, NoRv) : t \in SeqSet(ExtraTexts) \cup SeqSet(ExtraHeavyTexts) \cup SeqSet(SurrTexts) \cup SeqSet(BaseTextsMore)}
     \cup {ParseCase(t, rv) : t \in SeqSet(ReviveTexts), rv \in Revivers}
     \cup {[fam |-> "parsearg", arg |-> a] : a \in ParseArgs}
